@@ -4,6 +4,7 @@ use exec_common::*;
 fn main() {
     let mut cfg = Cfg::default();
     cfg.p_fail = 15;
+    cfg.set_remove_bias = true;
     run_prop("C01", "c01", cfg, 150, 1500, vec![],
         "scenarios = setup (mint, instantiate 2-4 contracts) + 2-6 random top-level calls (execute, execute_multi, wasm_sudo, bank sudo, the four Executor helpers) whose message trees (<= 18 nodes, depth <= 4) carry failure injection (explicit failure, malformed response, overdraft, missing contract, unauthorised admin op, failing module); distinct by SHA-256 of the scenario; non-trivial = at least one top-level call failed after contract code had run (something to roll back)",
         &|_, obs| obs.iter().any(|o| !matches!(o.outcome, OutcomeS::Ok(_)) && !o.trace.is_empty()));
